@@ -335,7 +335,7 @@ pub fn build_keyring_and_node<C: Crypto>(
             drop(s);
             node::session_id_by_local(matter, local_sid).ok_or("session not found after install")?
         };
-        uni.push(UniSess { name, pase, local_sid, peer_sid, rx_key, tx_key, peer_node, local_node, internal_id, next_ctr: 1 + rng.below(1 << 27) as u32 });
+        uni.push(UniSess { name, pase, local_sid, peer_sid, rx_key, tx_key, peer_node, local_node, internal_id, next_ctr: if rng.chance(1, 6) { 0 } else { 1 + rng.below(1 << 27) as u32 } });
     }
     Ok(Keyring { uni, gk, group_ctr: [1 + rng.below(1 << 30) as u32, 1 + rng.below(1 << 30) as u32], sid_collision })
 }
